@@ -4,6 +4,7 @@ from tools import chan, vlib
 KEY_TWO = "mpsc/wake_sender/stale-waker/two-outstanding-sends-in-one-task"
 KEY_SPUR = "mpsc/wake_sender/stale-waker/send-future-repolled-without-wake"
 KEY_CANCEL = "mpsc/wake_sender/lost-wake/sender-dropped-with-unfinished-send"
+KEY_CLOSE = "mpsc/close_this_sender/receiver-not-woken"
 
 
 class C16(vlib.Spec):
@@ -11,7 +12,8 @@ class C16(vlib.Spec):
     props_vo = "theories/Props/C16.vo"
     theorems = ["C16_fifo_exactly_once", "C16_history_faithful", "C16_closure_consistent",
                 "C16_no_strand", "C16_waiting_implies_runnable", "C16_no_strand_refuted",
-                "C16_no_strand_spurious_refuted", "C16_no_strand_cancel_refuted"]
+                "C16_no_strand_spurious_refuted", "C16_no_strand_cancel_refuted",
+                "C16_no_rx_strand", "C16_no_rx_strand_refuted"]
     crate, group, binary = "h_chan", "dfir", "h_chan"
     imports = ("From Coq Require Import List NArith.\nImport ListNotations.\n"
                "From HV Require Import Chan.Base Chan.ModelMpsc Chan.ModelMpscChk.")
@@ -24,8 +26,9 @@ class C16(vlib.Spec):
     assumptions = ["model validated against dfir_rs::util::unsync::mpsc only on the generated label sequences",
                    "single-threaded (the type is !Send); no select!-style cancellation of an individual send "
                    "future (only dropping the whole sender task)",
-                   "Sender::clone / try_send / Sink impl / close_this_sender are not part of the label alphabet"]
-    rule = ("label sequences (poll sender task / poll receiver / drop sender / close / drop receiver) enabled "
+                   "Sender::clone / try_send / the Sink impl (other than close_this_sender, which poll_close calls) are "
+                   "not part of the label alphabet"]
+    rule = ("label sequences (poll sender task / poll receiver / drop sender / close_this_sender / close / drop receiver) enabled "
             "in the model's executor policy, on 1-3 sender tasks with 1-3 stages of 1-2 outstanding sends, "
             "capacity 1, 2 or unbounded; non-trivial = at least one send returned Pending (full) and at "
             "least one waker fired; distinct by case hash")
@@ -44,8 +47,12 @@ class C16(vlib.Spec):
 
     def finding_key(self, case, res):
         cl = chan.mpsc_class(case)
-        # only the strand clause, and only when the implementation did exactly what the model did
-        if not cl["stranded"] or res.get("obs") != cl["obs"]:
+        # only the strand clauses, and only when the implementation did exactly what the model did
+        if res.get("obs") != cl["obs"]:
+            return None
+        if cl["rx_stranded"] and cl["closed_senders"] and not cl["stranded"]:
+            return KEY_CLOSE
+        if not cl["stranded"]:
             return None
         if cl["two"]:
             return KEY_TWO
